@@ -166,7 +166,7 @@ static void churn(mon::Rng& rng)
   {
     std::map<int, std::unique_ptr<CB>> live; // function -> owner
     auto other_cb = other.register_callback(fns[POOL - 1]);
-    int steps = mon::tier(400, 6000);
+    int steps = mon::tier(400, 30000);
     std::string hist;
     for (int s = 0; s < steps; s++) {
       bool grow = live.empty() || (static_cast<int>(live.size()) < CAP && rng.below(100) < (static_cast<int>(live.size()) < CAP - 2 ? 70 : 40));
